@@ -648,6 +648,33 @@ def _pipeline(ctx, keys):
                             continue
                         check('two keys', '%s + %s' % (n1, n2),
                               m1 + ' ; ' + m2, w1 + ' ; ' + w2)
+        # two keys of which one contains the other (auth_token / token,
+        # secret_uuid / secret, admin_password / password ...): each secret
+        # in its own place of the message, in both orders
+        nested = [(k1, k2) for k1 in keys for k2 in keys
+                  if k1 != k2 and k2 in k1]
+        if not ctx.thorough:
+            short = {}
+            for k1, k2 in nested:
+                short.setdefault(k2, []).append(k1)
+            nested = [(v[0], k2) for k2, v in sorted(short.items())] + \
+                [(v[-1], k2) for k2, v in sorted(short.items())
+                 if len(v) > 1]
+        for k1, k2 in nested:
+            r1s = renderings(k1, 'AAAsecret1', mask)
+            r2s = renderings(k2, 'BBBsecret2', mask)
+            for (n1, m1, w1) in r1s:
+                for (n2, m2, w2) in r2s:
+                    if any(q in n1 + n2 for q in (
+                            "'key': 'value'", '"key"', "u'key'",
+                            "'--flag'")):
+                        continue
+                    if n1 != n2:
+                        continue
+                    for a, b in (((m1, w1), (m2, w2)), ((m2, w2), (m1, w1))):
+                        check('nested keys', n1,
+                              a[0] + ' retry=3 ' + b[0],
+                              a[1] + ' retry=3 ' + b[1])
         # three and four secrets for one key in the same rendering
         for key in ('password', 'sslkey', 'secret'):
             for rname, _m, _w in renderings(key, 'x', mask):
